@@ -86,6 +86,8 @@ CONSTANTS Copies,     \* ids of the ImageCopy calls, e.g. {"c1", "c2"}
           MaxOps,     \* number of other events (deletes, pushes, a failing source request)
           KeyMode,    \* how modRefs is keyed (ocidir.go:gcKey):
                       \*  "clean"    filepath.Clean + Abs (fix 333d01d, the code as it is)
+                      \*  "resolve"  Clean + Abs + symlinks of the longest existing prefix resolved
+                      \*             (findings/C08-2.patch): every spelling of the directory is one key
                       \*  "literal"  the literal r.Path, as found (finding C08-1)
                       \*  "symlinks" Clean + Abs + EvalSymlinks, keeping the unresolved key while the
                       \*             layout does not exist yet (seeded change C08-3)
@@ -105,6 +107,7 @@ Cat == [
   M2  |-> Man("image",    {"C2"}, {"L2", "L3"}, {}, ""),      \* shares L2 with M1
   M3  |-> Man("image",    {"C3"}, {"L4"}, {}, ""),            \* body without mediaType (duck typed)
   M4  |-> Man("image",    {"C4"}, {"L4"}, {}, ""),            \* shares L4 with M3
+  M5  |-> Man("image",    {"C5"}, {"L5"}, {}, ""),            \* its layer is addressed by sha512
   S1  |-> Man("schema1",  {}, {"L1", "L4"}, {}, ""),          \* docker schema1: fsLayers, no config
   I1  |-> Man("index",    {}, {}, {"M1", "M2"}, ""),
   N1  |-> Man("index",    {}, {}, {"I1", "M3"}, ""),          \* nested index
@@ -132,11 +135,13 @@ IsTmp(x) == x \in TmpNames
 \* the layout directory exists (conf.fresh: it does not when the history starts; the first BlobPut
 \* or ManifestPut creates it, nothing removes index.json or the last file without an index)
 Exists == ~conf.fresh \/ hasidx \/ files # {}
-\* spellings: "p" the real path, "p/" with a trailing slash, "l" through a symbolic link
-Norm(k) == IF k = "p/" THEN "p" ELSE k
+\* spellings: "p" the real (absolute) path, "p/" with a trailing slash, "r" relative to the working
+\* directory, "l" through a symbolic link
+Norm(k) == IF k \in {"p/", "r"} THEN "p" ELSE k
 Resolve(k) == IF k = "l" THEN "p" ELSE Norm(k)
 KeyIf(k, ex) == CASE KeyMode = "literal" -> k
                   [] KeyMode = "clean" -> Norm(k)
+                  [] KeyMode = "resolve" -> Resolve(k)
                   [] KeyMode = "symlinks" -> IF ex THEN Resolve(k) ELSE Norm(k)
 GcKey(k) == KeyIf(k, Exists)      \* GCLock, GCUnlock, Close: the directory as it is now
 KeyW(k) == KeyIf(k, TRUE)         \* refMod: always called after a write, the directory exists
